@@ -241,3 +241,5 @@ META = {
     'not_decided': 'numeric equality keyspace = count for a concrete model (needs a run of the generator)',
     'technique': 'guard extraction + finite comparison of predicates in the index domain + rational-function identity',
 }
+
+META['explanation'] += ' ' + "Further: min_length resolution; the generator's prune discipline and inclusive level-cursor domain (shared from C10); the three passes agree."
